@@ -24,7 +24,7 @@ def run(ctx):
     rep.obs = rep.obs[:sub_before] + [o for o in rep.obs[sub_before:] if 'BigDecimal::round->' in o['key']]
     # (4) the rescale routines return exactly the requested scale; their extension branch is exact
     nr = exact.rescale_primitives(rep, F)
-    rep.floor('rescale primitive obligations', nr, 8)
+    rep.floor('rescale primitive obligations', nr, 10)
     # (5) with_scale_round hands the receiver's own sign to round_pair; truncation never floors
     wsr = [f for f in F.real_fns() if not f.is_closure and f.name == 'BigDecimal::with_scale_round']
     ns = S.sign_sinks(rep, F, F._prov, wsr)
